@@ -10,6 +10,9 @@ at the top-level directory.
 */
 
 #include "slu_mt_sdefs.h"
+#ifdef SLU_MT_VERIF
+#include "slu_mt_verif.h"
+#endif /* SLU_MT_VERIF */
 
 int_t
 psgstrf_snode_dfs(
@@ -57,6 +60,10 @@ psgstrf_snode_dfs(
     nsuper = NewNsuper(pnum, pxgstrf_shared, &Glu->nsuper);
     Glu->xsup[nsuper]     = jcol;
     Glu->xsup_end[nsuper] = kcol + 1;
+#ifdef SLU_MT_VERIF
+    SLUV_EVENT(SLUV_E_NSUPER, pnum, jcol, nsuper, 0, 0, 0);
+    SLUV_YIELD(SLUV_Y_NSUPER_LSUB);
+#endif /* SLU_MT_VERIF */
     
     nextl = 0;
     for (i = jcol; i <= kcol; i++) {
@@ -77,6 +84,9 @@ psgstrf_snode_dfs(
 	return mem_error;
     
     xlsub[jcol] = ito;
+#ifdef SLU_MT_VERIF
+    SLUV_EVENT(SLUV_E_LSUB_ALLOC, pnum, jcol, ito, 2*nextl, 0, 0);
+#endif /* SLU_MT_VERIF */
     lsub        = Glu->lsub;
     for (ifrom = 0; ifrom < nextl; ++ifrom)
 	lsub[ito++] = col_lsub[ifrom];
